@@ -86,6 +86,16 @@ class Run:
     def violation(self, rule, construct, where, detail="", **kw):
         return self.ob(rule, construct, where, VIOLATION, detail, **kw)
 
+    def _normalisation(self):
+        """rewrites the normaliser applied to the parsed modules before the rules read them (per module, non-zero only)"""
+        out = {}
+        if self.program:
+            for m in self.program.modules.values():
+                st = {k: v for k, v in (getattr(m, "normalised", {}) or {}).items() if v}
+                if st:
+                    out[m.relpath] = st
+        return out
+
     def incomplete(self, rule, construct, where, detail="", **kw):
         return self.ob(rule, construct, where, INCOMPLETE, detail, **kw)
 
@@ -174,9 +184,11 @@ class Run:
             "incomplete": n_incomplete,
             "modules_parsed": len(self.program.modules) if self.program else 0,
             "functions_in_package": self.program.n_functions if self.program else 0,
+            "normalisation": self._normalisation(),
             "checker_cmd": f"/venv/bin/python -m uxsa check {self.prop} --tier {self.tier}",
             "trusted_base": [
                 "CPython ast parser",
+                "behaviour-preserving normaliser uxsa/normalise.py (validated by its equivalence samples in selfcheck)",
                 "hand-written numpy/xarray transfer tables (uxsa/absint.py)",
                 "schema derived from uxarray/conventions/*.py",
             ],
